@@ -170,6 +170,8 @@ package jsonpatch
 //@   ensures[C06] unchanged: !result ==> n.which == old(n.which)
 //@   ensures[C01,C06] raw-kept: n.raw == old(n.raw)
 //@   ensures[C02] keeps-no-null-kids: old(noNullKids()) ==> noNullKids()
+//@   ensures[C01,C06] bytes-kept: n.raw != nil ==> bytes(*n.raw) == old(bytes(*n.raw))
+//@   ensures[C01,C04] detached-kept: old(detached(n)) ==> detached(n)
 
 //@ func (*lazyNode).tryAry
 //@   requires node: nodeOK(n)
@@ -178,11 +180,13 @@ package jsonpatch
 //@   ensures[C01,C05] frame-arrays: forall a *partialArray {a.nodes} :: old(allocated(a) && a.nodes != nil) ==> a.nodes == old(a.nodes)
 //@   requires unparsed: n.which != eAry
 //@   requires null-only-detached: n.raw != nil && kind(val(*n.raw)) == KNull ==> detached(n)
+//@   ensures[C01,C06] frame-parsed: old(n.which) == eDoc ==> n.which == eDoc && !result
 //@   ensures[C06] result: result <==> (n.raw != nil && (kind(val(*n.raw)) == KArr || kind(val(*n.raw)) == KNull))
 //@   ensures[C06] parsed: result ==> n.which == eAry && ((n.ary != nil) <==> kind(val(*n.raw)) == KArr)
 //@   ensures[C06] unchanged: !result ==> n.which == old(n.which)
 //@   ensures[C01,C06] raw-kept: n.raw == old(n.raw)
 //@   ensures[C02] keeps-no-null-kids: old(noNullKids()) ==> noNullKids()
+//@   ensures[C01,C06] bytes-kept: n.raw != nil ==> bytes(*n.raw) == old(bytes(*n.raw))
 
 //@ ginv merge-errors: ErrBadJSONDoc != nil && ErrBadJSONPatch != nil && errBadMergeTypes != nil
 //@ ginv raw-consts: bytes(rawJSONNull) == nullText && rawJSONNull != nil && allocated(rawJSONNull) && allocated(rawJSONArray) && allocated(rawJSONObject) && wf(bytes(rawJSONArray)) && kind(val(bytes(rawJSONArray))) == KArr && jlen(val(bytes(rawJSONArray))) == 0 && nows(bytes(rawJSONArray)) && wf(bytes(rawJSONObject)) && kind(val(bytes(rawJSONObject))) == KObj && jlen(val(bytes(rawJSONObject))) == 0 && nows(bytes(rawJSONObject))
@@ -221,6 +225,7 @@ package jsonpatch
 //@   ensures[C01,C05] raw-kept: n.raw == old(n.raw)
 //@   ensures[C08] attrs: !isTestFailed(err) && !isMissing(err) && !isCopyLimit(err) && !isInvalidIndex(err)
 //@   ensures[C02] keeps-no-null-kids: old(noNullKids()) ==> noNullKids()
+//@   ensures[C01,C06] bytes-kept: n.raw != nil ==> bytes(*n.raw) == old(bytes(*n.raw))
 
 //@ func (*lazyNode).intoAry
 //@   requires node: nodeOK(n)
@@ -238,6 +243,7 @@ package jsonpatch
 //@   ensures[C01,C05] raw-kept: n.raw == old(n.raw)
 //@   ensures[C08] attrs: !isTestFailed(err) && !isMissing(err) && !isCopyLimit(err) && !isInvalidIndex(err)
 //@   ensures[C02] keeps-no-null-kids: old(noNullKids()) ==> noNullKids()
+//@   ensures[C01,C06] bytes-kept: n.raw != nil ==> bytes(*n.raw) == old(bytes(*n.raw))
 
 //@ func (*lazyNode).compact
 //@   requires node: n != nil
@@ -288,6 +294,7 @@ package jsonpatch
 //@   ensures[C01,C09] present: "value" in o ==> result != nil && fresh(result) && result.which == eRaw && result.doc == nil && result.ary == nil && result.raw != nil && wf(*result.raw) && nows(*result.raw) && allocated(result.raw) && allocated(*result.raw)
 //@   ensures[C01] null: "value" in o && o["value"] == nil ==> kind(val(*result.raw)) == KNull && fresh(result.raw)
 //@   ensures[C01,C09] shares-patch-bytes: "value" in o && o["value"] != nil ==> result.raw == o["value"]
+//@   ensures[C01,C04] detached: result != nil ==> detached(result)
 
 //@ func validateOperation
 //@   requires op: opOK(op)
